@@ -27,8 +27,9 @@ RULE = (
     "really created on disk under dest; exhaustive: every tree with <= 4 entries, depth <= 3 over names {a,b} "
     "(= the source and destination basenames) for relative a->b, plus nested spellings; Hypothesis: trees to depth 5 "
     "over a universe containing the components of the absolute destination path.  non-trivial = some descendant's "
-    "path contains the destination directory path string a second time, or the tree has depth >= 2; distinct = "
-    "digest of (tree, spelling)"
+    "path contains the destination directory path string a second time, or the tree has depth >= 2; plus histories on the "
+    "real inotify observer under a relative root 'a' with names {a, b} (>= 2 renames = non-trivial), judged by C03's "
+    "justification and C02's probes; distinct = digest of (tree, spelling) / of the history"
 )
 ASSUMPTIONS = [
     "no symlinks in generated trees; src and dest are normalized paths without trailing separator, src non-empty",
@@ -197,18 +198,62 @@ def hyp_cases(draw):
     return {"tree": [[r, k] for r, k in sorted(tree.items())], "src": src, "dest": dest, "abs": ab, "bytes": by, "abs_name": abs_name}
 
 
+# ----------------------------------------------------------------------------- third mechanism: the watch-path map of the inotify layer
+
+
+@st.composite
+def e1_cases(draw, tier):
+    """Histories on the real inotify observer under a RELATIVE root whose own name recurs inside the tree (root 'a',
+    names {a, b}): renaming a directory re-keys the recorded watch paths of its descendants; a textual rewrite would hit
+    every occurrence of the directory's path in a descendant's path.  Judged by C03's justification of every event
+    (synthetic ones included) and C02's probes of every directory."""
+    from vlib import fsops
+
+    cfg = {"recursive": True, "spelling": draw(st.sampled_from(["rel", "rel", "abs"])), "root_name": "a", "bytes": draw(st.sampled_from([False, False, True]))}
+    opts = {
+        "names": ["a", "b"], "depth": 4, "max_bursts": 4 if tier == "quick" else 6, "max_ops": 2, "sleeps": False, "boundary": False, "prebuilt": False,
+        "weights": {"mkdir": 8, "rename": 10, "create": 3, "write": 1, "read": 0, "chmod": 0, "unlink": 1, "rmdir": 0, "rmtree": 1, "replace": 1},
+    }  # fmt: skip
+    h = draw(fsops.histories(opts))
+    return {"cfg": cfg, "init": h["init"], "bursts": h["bursts"]}
+
+
+def run_e1_case(case):
+    from props import c02, c03
+
+    c03.run_history(case)
+    c02.run_case(case)
+    renames = sum(1 for b in case["bursts"] for op in b if op[0] == "rename")
+    deep = any(op[0] == "rename" and op[1].count("/") >= 1 for b in case["bursts"] for op in b)
+    return renames >= 2, ["inotify-watch-path-map", f"renames={min(renames, 3)}"] + (["rename-below-top"] if deep else [])
+
+
 # ----------------------------------------------------------------------------- shards
 
 NSH = 16
 
 
 def shards(tier, seed):
-    return [(k, tier, seed, i) for i in range(NSH) for k in ("exh", "hyp")]
+    return [(k, tier, seed, i) for i in range(NSH) for k in ("exh", "hyp", "e1")]
 
 
 def run_shard(spec):
     kind, tier, seed, i = spec
     st_ = Stats()
+    if kind == "e1":
+        count = [0]
+
+        def body(case):
+            count[0] += 1
+            nt, cl = run_e1_case(case)
+            st_.case(["e1", case], nt, cl, sample=case if count[0] % 30 == 1 else None)
+
+        res = runner.hyp_search(e1_cases(tier), body, seed=runner.derive_seed(seed, ID, "e1", i), max_examples=40 if tier == "quick" else 600, shrink=False)
+        if res is not None:
+            case, v = res
+            st_.fail(dict(case, kind="e1"), v.message, v.signature, getattr(v, "extra", None))
+        st_.extra["inotify_histories"] = count[0]
+        return st_
     if kind == "exh":
         st_.exhaustive = True
         n = 0
@@ -242,6 +287,9 @@ def run_shard(spec):
 
 def replay(case):
     try:
+        if case.get("kind") == "e1":
+            run_e1_case(case)
+            return []
         run_pure_case(case)
     except Violation as v:
         return [runner.Failure(case, v.message, v.signature)]
